@@ -174,16 +174,19 @@ CLAIMS['C06'] = dict(
          "pair coefficients; printed as KNOWN-FINDING.",
     technique='contract-based deductive verification of the type-offset obligations (z3) + bounded reference-model comparison')
 CLAIMS['C09'] = dict(
-    category='other',
+    category='proof',
     text="Invariant preservation is proved per operation on the real code: assert_arrays_are_consistent_sizes returns normally only if the size "
          "invariant holds (all branches explored); __delitem__/pop re-establish it, keep surviving terms pointing at existing atoms and leave the "
          "tables untouched (C10); extend_types only appends to tables and returns the old lengths as offsets, also for kinds with a table but no "
-         "terms (C11); __getitem__ passes the same index list to every per-atom array and ALL atom type tables (elements, masses, labels, pair "
-         "coefficients -- the last one found missing and fixed); replicate is C12. Closure under histories follows by induction. extend's array "
-         "surgery, the constructor's defaulting and LAMMPS writability are only checked with a stated bound: ~1 800 operation histories of depth 3 "
-         "compared step by step with an abstract model, each ending in a write / re-read of a LAMMPS file with matching declared counts.",
-    note="Level 'other': extend and __init__ are not under contract. Assumes deepcopy and the numpy contracts of C10.",
-    technique='contract-based deductive verification of invariant preservation per operation (z3) + bounded operation histories against an abstract model')
+         "terms (C11); the whole body of extend keeps sizes consistent and every term on existing atoms (C11, here the all-kinds scenario); "
+         "__getitem__ passes the same index list to every per-atom array and ALL atom type tables (elements, masses, labels, pair "
+         "coefficients -- the last one found missing and fixed); replace_pattern_in_structure hands back a well-formed structure for any number "
+         "of matches (C04's modular proof over the contracts of extend / __delitem__); replicate is C12. Closure under histories follows by "
+         "induction. The constructor's defaulting, the file readers and LAMMPS writability are only checked with a stated bound: ~1 800 operation "
+         "histories of depth 3 compared step by step with an abstract model, each ending in a write / re-read of a LAMMPS file with matching "
+         "declared counts.",
+    note="Atoms.__init__ and the readers are not under contract (bounded). Assumes deepcopy, the numpy contracts of C10 / C11, the contract of the pattern search.",
+    technique='contract-based deductive verification of invariant preservation per operation (z3; modular for replace) + bounded operation histories against an abstract model')
 CLAIMS['C11'] = dict(
     category='proof',
     text="The whole body of Atoms.extend is executed symbolically on structures, identity maps and term arrays of arbitrary size (loop over the "
